@@ -293,7 +293,7 @@ func GenWorld(t *rapid.T) *World {
 		if rapid.IntRange(0, 2).Draw(t, sp.Apex+".wildpair") == 0 {
 			// a wildcard next to a concrete sibling of the same types
 			sp.Owners[at("*.w")] = []uint16{dns.TypeA, dns.TypeTXT}
-			sp.Owners[at("h.w")] = []uint16{dns.TypeA, dns.TypeTXT}
+			sp.Owners[at("h.w")] = []uint16{dns.TypeA, dns.TypeTXT, dns.TypeAAAA} // one type the wildcard lacks
 		}
 		n := rapid.IntRange(0, 5).Draw(t, sp.Apex+".nowners")
 		for j := 0; j < n; j++ {
